@@ -4047,7 +4047,8 @@ class PartitionTreeBuilder:
         **partition_opts,
     ):
         tree = ContractionTree(inputs, output, size_dict, track_childless=True)
-        rand_size_dict = jitter_dict(size_dict, random_strength, seed)
+        rng = get_rng(seed)
+        rand_size_dict = jitter_dict(size_dict, random_strength, rng)
         leaves = tuple(tree.gen_leaves())
         for node in leaves:
             tree._add_node(node, check=check)
@@ -4062,6 +4063,7 @@ class PartitionTreeBuilder:
                 output,
                 rand_size_dict,
                 parts=parts,
+                seed=rng,
                 **partition_opts,
             )
             leaves = [
